@@ -128,19 +128,23 @@ def aexit_cancel_sweep():  # noqa: ANN201
 def spawn_into_cancelled():  # noqa: ANN201
     for cfg in CFGS:
         for wind in range(1, 4):  # cycles spent shielded before the spawn
-            for stay in (6, 9):  # cycles the host stays shielded afterwards
+            for stay in (0, 1, 6, 9):  # cycles the host stays shielded afterwards
                 for how in ("start_soon", "create_task"):
                     for via in ("group", "outer"):
                         child = {"tid": 1, "how": how, "body": [["forever"]]}
                         shielded = ["scope", "s2", True, None,
                                     [["cp", wind], ["spawn", 1, child], ["cp", stay]]]  # fmt: skip
-                        if via == "group":
-                            root = [["group", 1, [], [["cancel", "g1"], shielded]]]
-                        else:
-                            root = [["scope", "s1", False, None, [
-                                ["cancel", "s1"], ["group", 1, [], [shielded]]]]]  # fmt: skip
+                        # the host either goes straight into __aexit__ or passes an
+                        # un-shielded checkpoint first (it must then be interrupted by a
+                        # cancellation the cancelled scope recognises as its own)
+                        for after in ([], [["cp", 2]]):
+                            if via == "group":
+                                root = [["group", 1, [], [["cancel", "g1"], shielded] + after]]
+                            else:
+                                root = [["scope", "s1", False, None, [
+                                    ["cancel", "s1"], ["group", 1, [], [shielded] + after]]]]  # fmt: skip
 
-                        yield _p(cfg, root, [], "fam:spawn_into_cancelled")
+                            yield _p(cfg, root + [["cp", 1]], [], "fam:spawn_into_cancelled")
 
 
 def start_into_cancelled():  # noqa: ANN201
